@@ -85,6 +85,8 @@ class Result:
 
     @property
     def backend(self):
+        if getattr(self, 'via', None) and self.discharged:
+            return self.via
         return 'z3' if self.z3 == 'unsat' else ('cvc5' if self.cvc5 == 'unsat' else None)
 
     @property
